@@ -353,7 +353,38 @@ def rule_check_calls(ctx: Ctx) -> None:
     ctx.ob("C05.CHECK-CALLS", CC, rec[0] if rec else uc, f"update_conf recursion {src(rec[0]) if rec else '?'}", okr, expected="update_conf(config.get(key, {}), value) for nested mappings")
 
 
+
+def rule_band_names(ctx: Ctx) -> int:
+    """check_band_pipeline receives `band_used` as None, a str (one band name), a list of names or a dict: a str must
+    be compared as a whole name -- iterating it compares its characters (band 'rg' accepted on an r/g/b image, band
+    'red' refused on a red/green/blue image)."""
+    tree = ctx.tree
+    fn = tree.func(SM, "PandoraMachine.check_band_pipeline")
+    bu = fn.args.args[3].arg if len(fn.args.args) > 3 else "band_used"
+    d = Defs(fn)
+    n = 0
+    for lp in [x for x in walk_no_nested(fn) if isinstance(x, ast.For)]:
+        it = lp.iter
+        direct = isinstance(it, ast.Name) and it.id == bu
+        if isinstance(it, ast.Name) and not direct:
+            r = d.reaching(it.id, lp)
+            wrapped = r is not None and canon(r[1]) in (canon(ast.parse(f"[{bu}] if isinstance({bu}, str) else {bu}", mode="eval").body), canon(ast.parse(f"{bu} if not isinstance({bu}, str) else [{bu}]", mode="eval").body))
+            if not wrapped and not (r is not None and any(isinstance(x, ast.Name) and x.id == bu for x in ast.walk(r[1]))):
+                continue
+        elif not direct:
+            if not any(isinstance(x, ast.Name) and x.id == bu for x in ast.walk(it)):
+                continue
+            wrapped = False
+        else:
+            wrapped = False
+        n += 1
+        excluded = any((not pol and equivalent(boolform(t), boolform(ast.parse(f"isinstance({bu}, str)", mode="eval").body)) is None) or (pol and equivalent(boolform(t), boolform(ast.parse(f"isinstance({bu}, (list, tuple))", mode="eval").body)) is None) for t, pol in guards_of(lp, stop=fn))
+        isdictitems = isinstance(it, ast.Call) and isinstance(it.func, ast.Attribute) and it.func.attr in ("items", "values")
+        ctx.ob("C05.BAND-NAMES", SM, lp, f"check_band_pipeline: `for {src(lp.target)} in {src(it)}` never iterates the characters of a band name", wrapped or excluded or isdictitems, expected=f"bands = [{bu}] if isinstance({bu}, str) else {bu}", detail="the matching-cost band is a str: iterated directly, each *character* is looked up in the band list, so a band absent from the image can be accepted and a band present can be refused")
+    return n
+
 def run(ctx: Ctx) -> None:
+    ctx.floor("C05.BAND-NAMES", rule_band_names(ctx), 2)
     n = rule_classes(ctx)
     ctx.floor("C05.DOMAIN", n, 50)
     if ctx.extra.get("bool_passes_int_gate"):
@@ -393,6 +424,7 @@ SPEC = PropSpec(
 
 MC = "pandora/matching_cost/matching_cost.py"
 MUTANTS = [
+    {"id": "band-name-iterated-character-by-character", "file": SM, "old": "            bands = [band_used] if isinstance(band_used, str) else band_used\n            for band in bands:\n", "new": "            for band in band_used:\n"},
     {"id": "census-own-rule-before-shared-unpack", "file": "pandora/matching_cost/census.py", "old": '        schema = self.schema\n        schema["matching_cost_method"] = And(str, lambda input: "census")\n        schema["window_size"] = And(int, lambda input: input in (3, 5))\n', "new": '        schema = {"window_size": And(int, lambda input: input in (3, 5)), **self.schema}\n        schema["matching_cost_method"] = And(str, lambda input: "census")\n'},
     {"id": "eq-census-private-copy-then-own-rules", "kind": "equiv", "file": "pandora/matching_cost/census.py", "old": '        schema = self.schema\n        schema["matching_cost_method"] = And(str, lambda input: "census")\n        schema["window_size"] = And(int, lambda input: input in (3, 5))\n', "new": '        schema = {**self.schema, "window_size": And(int, lambda input: input in (3, 5))}\n        schema["matching_cost_method"] = And(str, lambda input: "census")\n'},
     {"id": "window-default-7", "file": MC, "old": "    _WINDOW_SIZE = 5\n", "new": "    _WINDOW_SIZE = 7\n"},
@@ -405,7 +437,7 @@ MUTANTS = [
     {"id": "threshold-default-int", "file": "pandora/validation/validation.py", "old": "    _THRESHOLD = 1.0\n", "new": "    _THRESHOLD = 1\n"},
     {"id": "update_conf-no-deepcopy", "file": CC, "old": "    config = copy.deepcopy(def_cfg)\n", "new": "    config = dict(def_cfg)\n"},
     {"id": "sigma-space-default-color", "file": "pandora/filter/bilateral.py", "old": '            cfg["sigma_space"] = self._SIGMA_SPACE\n', "new": '            cfg["sigma_space"] = self._SIGMA_COLOR\n'},
-    {"id": "band-check-left-twice", "file": SM, "old": '        self.check_band_pipeline(\n            self.right_img.coords["band_im"].data,\n            cfg["matching_cost"]["matching_cost_method"],', "new": '        self.check_band_pipeline(\n            self.left_img.coords["band_im"].data,\n            cfg["matching_cost"]["matching_cost_method"],'},
+    {"id": "band-check-left-twice", "file": SM, "old": '        self.check_band_pipeline(\n            self.right_img.coords["band_im"].data,\n            cfg[input_step]["matching_cost_method"],', "new": '        self.check_band_pipeline(\n            self.left_img.coords["band_im"].data,\n            cfg[input_step]["matching_cost_method"],'},
     {"id": "eta-max-closed", "file": "pandora/cost_volume_confidence/ambiguity.py", "old": '"eta_max": And(float, lambda input: 0 < input < 1),', "new": '"eta_max": And(float, lambda input: 0 < input <= 1),'},
     {"id": "nodata-or-int-float", "file": CC, "old": '        "nodata": Or(int, lambda input: np.isnan(input)),\n        "mask": And(Or(str, lambda input: input is None), rasterio_can_open),\n        "classif": And(Or(str, lambda x: x is None), rasterio_can_open),\n        "segm": And(Or(str, lambda x: x is None), rasterio_can_open),\n    },\n    "right"', "new": '        "nodata": Or(int, float),\n        "mask": And(Or(str, lambda input: input is None), rasterio_can_open),\n        "classif": And(Or(str, lambda x: x is None), rasterio_can_open),\n        "segm": And(Or(str, lambda x: x is None), rasterio_can_open),\n    },\n    "right"', "kind": "skip"},
     {"id": "subpix-odd-accepted", "file": MC, "old": "input > 0 and ((input % 2) == 0) or input == 1", "new": "input > 0"},
